@@ -1,9 +1,11 @@
-(* C16 - proofs about Model/HttpReq.v.
-   Plan: (A) string equality, (B) NameValueRecord lemmas, (C) the cookie glue,
+(* C16 - library lemmas about Model/HttpReq.v:
+   (A) string equality, (B) NameValueRecord lemmas, (C) the cookie glue,
    (D) character-level facts (decimal, base64, URL text), (E) the shape of the
-   serialised bytes, (F) a generic induction over the hop list for any request
-   invariant, (G) the three invariants (field membership, single Host, url
-   sequence) and (H) the property theorems. *)
+   serialised bytes.  The session invariant and the induction over the hop list are
+   in Proofs/HttpReqInv.v, the independent reader and the statements cited by
+   Props/C16.v in Proofs/HttpReadProofs.v.
+   (Round 1 left a [repeat apply Forall_app] on an iff here that never terminated;
+   [to_bytes_shape] now applies [lt256_app] five times.) *)
 From Coq Require Import List NArith Bool Lia Arith ZifyBool ZifyNat ZifyN.
 From Wpull Require Import Lib.Hex Model.HttpReq Spec.HttpWire.
 Import ListNotations.
